@@ -63,6 +63,22 @@ var jobTable = map[string]jobSet{
 		},
 		quickS: 300, thoroughS: 1800,
 	},
+	// C17, part "relay": the stream ids the two sides really use, session
+	// after session (first contact, same-rendezvous reconnects, the move
+	// after a version-2 pairing).
+	"C17": {
+		quick: []Job{
+			{Scenario: "rdv/rounds=3/closer=server/v=1", Budgets: bs(B(1, 0)), Filter: "mailbox", Split: 1},
+			{Scenario: "rdv/rounds=3", Budgets: bs(B(1, 0)), Filter: "mailbox", Split: 1},
+		},
+		thorough: []Job{
+			{Scenario: "rdv/rounds=3/closer=server/v=1", Budgets: bs(B(2, 0)), Filter: "mailbox", Split: 2},
+			{Scenario: "rdv/rounds=3", Budgets: bs(B(2, 0)), Filter: "mailbox", Split: 2},
+			{Scenario: "rdv/rounds=3/closer=server", Budgets: bs(B(1, 0)), Split: 1},
+			{Scenario: "rdv/rounds=3/v=0", Budgets: bs(B(1, 0)), Split: 1},
+		},
+		quickS: 150, thoroughS: 1200,
+	},
 }
 
 func jobsFor(prop string, thorough bool) ([]Job, int) {
